@@ -101,6 +101,20 @@ RunRecord run_driver(const sim::Json& sc) {
   g.begin();
   if (sigsetjmp(jb, 1) == 0) {
     try {
+      if (sc["driver"].as_str() == "mini") {
+        // history: one application object of the minimal driver serves several Run() calls with the scenario's command line
+        // (same exception mapping as mp::RunBackendApp)
+        try {
+          mp::BackendApp app(CreateMiniBackend());
+          app.GetBackend().GetCallbacks() = mp::BasicBackend::Callbacks{};
+          long runs = sc["mini_runs"].as_int(1);
+          for (long q = 0; q < runs; ++q) {
+            g.event("MINI_RUN " + std::to_string(q));
+            rec.ret = app.Run(argv.data());
+          }
+        } catch (const mp::Error& e) { fmt::print(stderr, "Error: {}\n", e.what()); rec.ret = e.exit_code(); }
+        catch (const std::exception& e) { fmt::print(stderr, "Error: {}\n", e.what()); rec.ret = EXIT_FAILURE; }
+      } else
       rec.ret = sc["driver"].as_str() == "visitor" ? mp::RunBackendApp(argv.data(), CreateVisitorBackend)
                                                    : mp::RunBackendApp(argv.data(), CreateSimBackend);
     } catch (const std::exception& e) {
